@@ -501,3 +501,33 @@ Proof.
   destruct (phdr_fields_all le is64 h) as (_ & _ & H3 & _).
   rewrite H3, Ho, Hi1. apply interp_name_exact. exact Hn.
 Qed.
+
+(* ================================================================== the section header behind every entry point *)
+Definition shdr_vals (name type flags addr offset size link info addralign entsize : Z) : list fval :=
+  [VZ name; VZ type; VZ flags; VZ addr; VZ offset; VZ size; VZ link; VZ info; VZ addralign; VZ entsize].
+
+Lemma shdr_fields le is64 name type flags addr offset size link info addralign entsize :
+  let r := annot_layout (spec_Elf_Shdr le is64)
+                        (shdr_vals name type flags addr offset size link info addralign entsize) in
+  rec_z r "sh_type" = type /\ rec_z r "sh_flags" = flags /\ rec_z r "sh_addr" = addr /\
+  rec_z r "sh_offset" = offset /\ rec_z r "sh_size" = size /\ rec_z r "sh_addralign" = addralign.
+Proof. destruct le, is64; cbn; repeat split; auto. Qed.
+
+(* the image holds, at e_shoff + n * e_shentsize for ANY entry size, the encoded header: section n
+   is described by it; sh_name, sh_link, sh_info, sh_entsize are free *)
+Theorem section_header_file_exact :
+  forall le is64 T shoff shentsize n name type flags addr offset size link info addralign entsize (A R : list Z),
+  let vals := shdr_vals name type flags addr offset size link info addralign entsize in
+  fits_layout (spec_Elf_Shdr le is64) vals = true ->
+  zlen A = shoff + n * shentsize ->
+  section_header_at (A ++ encode_layout (spec_Elf_Shdr le is64) vals ++ R) le is64 T shoff shentsize n
+  = Ok (mk_sheader (dec_enum T type) flags addr offset size addralign).
+Proof.
+  intros le is64 T shoff shentsize n name type flags addr offset size link info addralign entsize A R vals Hf HA.
+  unfold section_header_at, struct_parse_at. rewrite <- HA, drop_at_app.
+  rewrite gen_Elf_Shdr_gabi, decode_encode_layout by exact Hf. cbn [bind].
+  unfold sheader_of.
+  destruct (shdr_fields le is64 name type flags addr offset size link info addralign entsize)
+    as (H1 & H2 & H3 & H4 & H5 & H6).
+  fold vals in H1, H2, H3, H4, H5, H6. rewrite H1, H2, H3, H4, H5, H6. reflexivity.
+Qed.
